@@ -284,8 +284,105 @@ func goAdnlCoalesced(a []string) string {
 		[]string{fmt.Sprintf("%d %s waiting", len(all), packetsDigest(all))})
 }
 
+var specialMagics = [][]byte{
+	{0x03, 0xfb, 0x69, 0xdc}, // tcp.pong
+	{0x9a, 0x2b, 0x08, 0x4d}, // tcp.ping
+	{0x7a, 0xf9, 0x8b, 0xb4}, // adnl.message.query
+	{0x16, 0x84, 0xac, 0x0f}, // adnl.message.answer
+	{0xb6, 0x4a, 0x5d, 0xe3}, // tcp.authentificationNonce
+	{0x12, 0xab, 0x5b, 0x44}, // tcp.authentificate
+	{0xa6, 0x9e, 0xad, 0xf7}, // tcp.authentificationComplete
+	{0xc6, 0xb4, 0x13, 0x48}, // pub.ed25519 / key-id prefix ("handshake-like")
+}
+
+// goAdnlMagics: the server sends payloads that BEGIN with each TL magic the client treats specially, at the lengths
+// 4, 8, 11, 12, 13, 16, 64 (and the bare 3-byte prefixes), in random order: Responses() must yield exactly the ones the
+// model's Connection.reader forwards — only a 12-byte tcp.pong and tcp.authentificationNonce messages are kept back.
+//
+//	args: serverSeed seed
+func goAdnlMagics(a []string) string {
+	quietStdout()
+	rng := rand.New(rand.NewSource(int64(atoi(a[1]))))
+	srv, err := newADNLServer(h.MustUnHex(a[0]))
+	if err != nil {
+		return "FAIL listen " + err.Error()
+	}
+	defer srv.close()
+	replyNonce := make([]byte, 32)
+	rng.Read(replyNonce)
+	conn, sc, fail := dialReal(srv, replyNonce)
+	if fail != "" {
+		return fail
+	}
+	defer sc.close()
+	defer conn.VerifRetire()
+	var payloads [][]byte
+	for _, m := range specialMagics {
+		for _, n := range []int{3, 4, 8, 11, 12, 13, 16, 64} {
+			b := make([]byte, n)
+			rng.Read(b)
+			copy(b, m)
+			payloads = append(payloads, b)
+		}
+	}
+	rng.Shuffle(len(payloads), func(i, j int) { payloads[i], payloads[j] = payloads[j], payloads[i] })
+	payloads = append(payloads, []byte("sentinel: the last packet"))
+	var want [][]byte
+	hexes := make([]string, len(payloads))
+	expect := make([]byte, len(payloads))
+	for i, p := range payloads {
+		hexes[i] = h.Hex(p)
+		expect[i] = 'f'
+		if len(p) >= 4 {
+			switch {
+			case bytes.Equal(p[:4], specialMagics[0]) && len(p) == 12:
+				expect[i] = 'p'
+			case bytes.Equal(p[:4], specialMagics[4]):
+				expect[i] = 'a'
+			}
+		}
+		if expect[i] == 'f' {
+			want = append(want, p)
+		}
+	}
+	var plain []byte
+	for _, p := range payloads {
+		nonce := make([]byte, 32)
+		rng.Read(nonce)
+		plain = append(plain, specFrame(nonce, p)...)
+	}
+	if err := sc.writeSegmented(sc.encrypt(plain), rng); err != nil {
+		return "FAIL server-write-error " + err.Error()
+	}
+	t := time.NewTimer(2 * time.Second)
+	defer t.Stop()
+	for i, w := range want {
+		select {
+		case got := <-conn.Responses():
+			if !bytes.Equal(got.Payload, w) {
+				// which one is missing?
+				return fmt.Sprintf("FAIL packet-swallowed-by-reader expected=%s got=%s (position %d)", clip(h.Hex(w)), clip(h.Hex(got.Payload)), i)
+			}
+		case <-t.C:
+			return fmt.Sprintf("FAIL packet-swallowed-by-reader expected=%s, nothing more delivered (position %d of %d)", clip(h.Hex(w)), i, len(want))
+		}
+	}
+	select {
+	case got := <-conn.Responses():
+		return "FAIL transport-message-delivered " + clip(h.Hex(got.Payload))
+	default:
+	}
+	return modelCheck([]string{"adnl.reader " + strings.Join(hexes, " ")}, []string{"ok " + string(expect)})
+}
+
 // genC11Extra is called at the end of genC11.
 func genC11Extra(g *h.G) {
+	for i := 0; i < g.Scale(40, 400); i++ {
+		seed := g.Rng.Int31()
+		g.NonTrivial(fmt.Sprintf("mg/%d", seed))
+		g.Count("magic_prefixed_payload_sessions")
+		g.Emit("go.adnl.magics", h.Hex(g.Bytes(32)), fmt.Sprint(seed))
+	}
 	nConc := g.Scale(200, 3000)
 	for i := 0; i < nConc; i++ {
 		ng := g.Pick(2, 3, 4, 8, 16)
